@@ -79,6 +79,9 @@ macro_rules! impl_real {
                     } else {
                         formatter.push_str(b"9.9E+37")
                     }
+                } else if *self == 0.0 && self.is_sign_negative() {
+                    // lexical-core drops the sign of negative zero
+                    formatter.push_str(b"-0.0")
                 } else {
                     let mut buf = [b'0'; <$typ>::FORMATTED_SIZE_DECIMAL];
                     let slc = lexical_core::write::<$typ>(*self, &mut buf);
